@@ -24,6 +24,14 @@ structure RegLaws (o : RegOracle) (IsPkg : Str → Prop) : Prop where
   /-- no `:` at the end (it would complete a `://` with the separator) -/
   no_colon_end : ∀ p, IsPkg p → p.getLast? ≠ some ':'
 
+/-- L3: `ParseModuleSource` accepts a printed package followed by `//` and a stored sub-path
+(it splits the sub-directory off itself); only used for `looksLikeRegistrySource` /
+`looksLikeFinalRegistrySource`.  Includes `sub = ""` (the string `pkg//`), which is what
+`looksLikeFinalRegistrySource` asks about for a final address without sub-path. -/
+structure RegLawsSubdir (o : RegOracle) (IsPkg : Str → Prop) : Prop where
+  accepts_subdir : ∀ p sub, IsPkg p → normalizeSubpath sub = some sub → '?' ∉ sub →
+    (o.regParse (p ++ '/' :: '/' :: sub)).isSome = true
+
 /-- additional shape facts the regular expression of the final form needs -/
 structure RegLawsFinal (IsPkg : Str → Prop) : Prop where
   nonempty : ∀ p, IsPkg p → p ≠ []
@@ -49,6 +57,11 @@ structure VerLaws (o : RegOracle) (IsVer : Str → Prop) : Prop where
 def rgNoTrailSp (s : Str) : Prop := ∀ c, s.getLast? = some c → isSpace c = false
 /-- no white space at the start -/
 def rgNoLeadSp (s : Str) : Prop := ∀ c, s.head? = some c → isSpace c = false
+
+/-- what the dispatch in `ParseFinalSource` needs from printed versions (a printed final address
+without sub-path ends with the version) -/
+structure VerLawsDispatch (IsVer : Str → Prop) : Prop where
+  no_trail_space : ∀ v, IsVer v → rgNoTrailSp v
 
 /-! ## occurrences -/
 
@@ -149,5 +162,596 @@ theorem rgParsePlain {o : RegOracle} {IsPkg : Str → Prop} (L : RegLaws o IsPkg
   have hn : normalizeSubpath [] = some [] := rfl
   simp only [hn, L.parse_self pkg hp]
   simp
+
+/-! ## what a successful parse tells; no panic -/
+
+theorem rgSplitPre_snd_mem (pre : Str) (c : Char) (h : c ∈ (splitPre pre).2) : c ∈ pre := by
+  unfold splitPre at h
+  split at h
+  · cases h
+  · exact List.mem_of_mem_drop h
+
+/-- the sub-path part consists of characters of the `?`-free prefix of the string -/
+theorem rgSplit_snd (s : Str) : '?' ∉ (splitSubPath s).2 ∧ ∀ c, c ∈ (splitSubPath s).2 → c ∈ s := by
+  obtain ⟨pre, qs, e, hpre, hqs⟩ := query_decomp s
+  subst e
+  rw [splitSubPath_eq pre qs hpre hqs]
+  exact ⟨fun hm => hpre (rgSplitPre_snd_mem pre _ hm),
+    fun c hc => List.mem_append_left _ (rgSplitPre_snd_mem pre c hc)⟩
+
+/-- what a successful `ParseRegistrySource` tells -/
+theorem rgParse_ok {o : RegOracle} {s pkg sub : Str} (h : parseRegistrySource o s = .ok (pkg, sub)) :
+    normalizeSubpath (splitSubPath s).2 = some sub ∧ o.regParse (splitSubPath s).1 = some (pkg, []) := by
+  unfold parseRegistrySource at h
+  simp only at h
+  split at h
+  · cases h
+  · rename_i sub' hn
+    split at h
+    · cases h
+    · rename_i pkg' subdir hr
+      split at h
+      · cases h
+      · rename_i hs
+        simp only [ne_eq, Decidable.not_not] at hs
+        cases h
+        subst hs
+        exact ⟨hn, hr⟩
+
+theorem rgNoPanic (o : RegOracle)
+    (hsub : ∀ s p d, o.regParse s = some (p, d) → d ≠ [] → (splitSubPath s).2 ≠ []) (given : Str) :
+    parseRegistrySource o given ≠ .panic := by
+  unfold parseRegistrySource
+  simp only
+  split
+  · simp
+  · split
+    · simp
+    · rename_i pkg subdir hr
+      split
+      · rename_i hs
+        exact absurd (C19_split_idem given) (hsub _ _ _ hr hs)
+      · simp
+
+/-! ## the part after the at-sign: matchFinalRest -/
+
+
+/-- the optional `//group4` suffix -/
+def rgTail (g4 : Str) : Str := if g4 = [] then [] else '/' :: '/' :: g4
+
+theorem rgDrop_takeWhile (p : Char → Bool) (l : Str) :
+    l.drop (l.takeWhile p).length = l.dropWhile p := by
+  induction l with
+  | nil => rfl
+  | cons x xs ih =>
+    by_cases hx : p x = true
+    · simp [hx, ih]
+    · simp [hx]
+
+theorem rgTakeWhile_append (p : Char → Bool) (a b : Str) (ha : ∀ c ∈ a, p c = true)
+    (hb : b.head?.all (fun c => !p c) = true) : (a ++ b).takeWhile p = a := by
+  induction a with
+  | nil =>
+    cases b with
+    | nil => rfl
+    | cons x t =>
+      simp only [List.head?_cons, Option.all_some, Bool.not_eq_true'] at hb
+      simp [hb]
+  | cons x xs ih =>
+    have hx := ha x (by simp)
+    simp only [List.cons_append, List.takeWhile_cons, hx, if_true]
+    rw [ih (fun c hc => ha c (List.mem_cons_of_mem _ hc))]
+
+theorem rgMem_takeWhile (p : Char → Bool) (l : Str) (c : Char) (h : c ∈ l.takeWhile p) : p c = true := by
+  induction l with
+  | nil => cases h
+  | cons x xs ih =>
+    rw [List.takeWhile_cons] at h
+    split at h
+    · rcases List.mem_cons.mp h with rfl | h
+      · assumption
+      · exact ih h
+    · cases h
+
+theorem rgTail_head (g4 : Str) : (rgTail g4).head?.all (fun c => !(decide (c ≠ '/'))) = true := by
+  unfold rgTail
+  split <;> simp
+
+theorem rgRest_iff (r ver g4 : Str) :
+    matchFinalRest r = some (ver, g4) ↔
+      ver ≠ [] ∧ '/' ∉ ver ∧ noNewline g4 = true ∧ r = ver ++ rgTail g4 := by
+  constructor
+  · intro h
+    unfold matchFinalRest at h
+    simp only at h
+    have hr : r = r.takeWhile (· ≠ '/') ++ r.drop (r.takeWhile (· ≠ '/')).length := by
+      rw [rgDrop_takeWhile, List.takeWhile_append_dropWhile]
+    have hns : '/' ∉ r.takeWhile (· ≠ '/') := by
+      intro hm
+      have := rgMem_takeWhile _ _ _ hm
+      simp at this
+    generalize r.takeWhile (· ≠ '/') = v at h hr hns
+    generalize r.drop v.length = rem at h hr
+    split at h
+    · cases h
+    · rename_i hv
+      split at h
+      · rename_i hrem
+        cases h
+        exact ⟨hv, hns, by decide, by rw [hr, hrem]; simp [rgTail]⟩
+      · split at h
+        · rename_i g
+          split at h
+          · rename_i hg
+            cases h
+            exact ⟨hv, hns, hg.2, by rw [hr]; simp [rgTail, hg.1]⟩
+          · cases h
+        · cases h
+  · rintro ⟨hv, hns, hnl, rfl⟩
+    have htw : (ver ++ rgTail g4).takeWhile (· ≠ '/') = ver :=
+      rgTakeWhile_append _ ver (rgTail g4)
+        (fun c hc => by simp only [ne_eq, decide_not, Bool.not_eq_eq_eq_not, Bool.not_true,
+          decide_eq_false_iff_not]; exact fun e => hns (e ▸ hc))
+        (rgTail_head g4)
+    unfold matchFinalRest
+    simp only [htw, List.drop_left, hv, if_false]
+    unfold rgTail
+    by_cases hg : g4 = []
+    · simp [hg]
+    · simp [hg, hnl]
+
+/-! ## the scan for the last usable at-sign: matchFinalAt -/
+
+/-- position `j` carries an `@` that the pattern can use: a newline-free prefix before it and
+a well-shaped rest after it -/
+def rgCand (s : Str) (j : Nat) (ver g4 : Str) : Prop :=
+  (s.drop j).head? = some '@' ∧ noNewline (s.take j) = true ∧
+    matchFinalRest (s.drop (j + 1)) = some (ver, g4)
+
+theorem rgAt_succ (s : Str) (i : Nat) : matchFinalAt s (i + 1) =
+    if (s.drop (i + 1)).head? = some '@' ∧ noNewline (s.take (i + 1)) = true then
+      match matchFinalRest (s.drop (i + 2)) with
+      | some (ver, g4) => some (s.take (i + 1), ver, g4)
+      | none => matchFinalAt s i
+    else matchFinalAt s i := rfl
+
+theorem rgAt_sound (s : Str) : ∀ (n : Nat) (g1 ver g4 : Str), matchFinalAt s n = some (g1, ver, g4) →
+    ∃ i, 0 < i ∧ i ≤ n ∧ g1 = s.take i ∧ rgCand s i ver g4 ∧
+      ∀ j, i < j → j ≤ n → ∀ v' g', ¬ rgCand s j v' g' := by
+  intro n
+  induction n with
+  | zero => intro g1 ver g4 h; cases h
+  | succ n ih =>
+    intro g1 ver g4 h
+    have hrec : matchFinalAt s n = some (g1, ver, g4) →
+        (∀ v' g', ¬ rgCand s (n + 1) v' g') →
+        ∃ i, 0 < i ∧ i ≤ n + 1 ∧ g1 = s.take i ∧ rgCand s i ver g4 ∧
+          ∀ j, i < j → j ≤ n + 1 → ∀ v' g', ¬ rgCand s j v' g' := by
+      intro h' hno
+      obtain ⟨i, h0, hle, e, hc, hmax⟩ := ih g1 ver g4 h'
+      refine ⟨i, h0, by omega, e, hc, ?_⟩
+      intro j hij hj v' g'
+      by_cases hjn : j = n + 1
+      · subst hjn; exact hno v' g'
+      · exact hmax j hij (by omega) v' g'
+    rw [rgAt_succ] at h
+    split at h
+    · rename_i hc
+      split at h
+      · rename_i v g hm
+        cases h
+        exact ⟨n + 1, by omega, Nat.le_refl _, rfl, ⟨hc.1, hc.2, hm⟩, fun j h1 h2 => by omega⟩
+      · rename_i hm
+        exact hrec h (fun v' g' hc' => by have := hc'.2.2; rw [show n + 1 + 1 = n + 2 from rfl, hm] at this; cases this)
+    · rename_i hc
+      exact hrec h (fun v' g' hc' => hc ⟨hc'.1, hc'.2.1⟩)
+
+theorem rgAt_complete (s : Str) : ∀ (n i : Nat) (ver g4 : Str), 0 < i → i ≤ n → rgCand s i ver g4 →
+    (∀ j, i < j → j ≤ n → ∀ v' g', ¬ rgCand s j v' g') →
+    matchFinalAt s n = some (s.take i, ver, g4) := by
+  intro n
+  induction n with
+  | zero => intro i ver g4 h0 hle; omega
+  | succ n ih =>
+    intro i ver g4 h0 hle hc hmax
+    rw [rgAt_succ]
+    by_cases hin : i = n + 1
+    · subst hin
+      have : (s.drop (n + 1)).head? = some '@' ∧ noNewline (s.take (n + 1)) = true := ⟨hc.1, hc.2.1⟩
+      simp only [this, and_self, if_true]
+      rw [hc.2.2]
+    · have hrec := ih i ver g4 h0 (by omega) hc (fun j h1 h2 => hmax j h1 (by omega))
+      split
+      · rename_i hc'
+        split
+        · rename_i v g hm
+          exact absurd ⟨hc'.1, hc'.2, hm⟩ (hmax (n + 1) (by omega) (Nat.le_refl _) v g)
+        · exact hrec
+      · exact hrec
+
+/-! ## matchFinal against the declarative reading -/
+
+/-- declarative reading of a match of `^(.+)@([^/]+)(//(.+))?$` with the given groups 1, 2, 4
+(group 4 empty when the optional part is absent) -/
+def rgFinalShape (s g1 ver g4 : Str) : Prop :=
+  s = g1 ++ '@' :: ver ++ rgTail g4 ∧ g1 ≠ [] ∧ noNewline g1 = true ∧ ver ≠ [] ∧ '/' ∉ ver ∧
+    noNewline g4 = true
+
+theorem rgCand_shape (s : Str) (i : Nat) (ver g4 : Str) (h0 : 0 < i) (hc : rgCand s i ver g4) :
+    rgFinalShape s (s.take i) ver g4 ∧ (s.take i).length = i := by
+  obtain ⟨h1, h2, h3⟩ := hc
+  obtain ⟨hv, hns, hnl, hr⟩ := (rgRest_iff _ _ _).mp h3
+  cases hd : s.drop i with
+  | nil => rw [hd] at h1; cases h1
+  | cons x t =>
+    rw [hd] at h1
+    simp only [List.head?_cons, Option.some.injEq] at h1
+    subst h1
+    have ht : s.drop (i + 1) = t := by
+      have : s.drop (i + 1) = (s.drop i).drop 1 := by rw [List.drop_drop]
+      rw [this, hd]; rfl
+    have hlt : i < s.length := by
+      have : s.drop i ≠ [] := by rw [hd]; simp
+      simpa using this
+    have hlen : (s.take i).length = i := by simp [List.length_take]; omega
+    refine ⟨⟨?_, ?_, h2, hv, hns, hnl⟩, hlen⟩
+    · calc s = s.take i ++ s.drop i := (List.take_append_drop i s).symm
+        _ = s.take i ++ '@' :: ver ++ rgTail g4 := by rw [hd, ← ht, hr]; simp
+    · intro e
+      rw [e] at hlen
+      simp at hlen
+      omega
+
+theorem rgShape_cand (s g1 ver g4 : Str) (h : rgFinalShape s g1 ver g4) :
+    0 < g1.length ∧ g1.length ≤ s.length ∧ s.take g1.length = g1 ∧ rgCand s g1.length ver g4 := by
+  obtain ⟨e, hg, hgl, hv, hns, hnl⟩ := h
+  have e1 : s = g1 ++ ('@' :: (ver ++ rgTail g4)) := by rw [e]; simp
+  have e2 : s = (g1 ++ ['@']) ++ (ver ++ rgTail g4) := by rw [e]; simp
+  have ht : s.take g1.length = g1 := by rw [e1]; exact List.take_left' rfl
+  refine ⟨List.length_pos_iff.mpr hg, by rw [e1]; simp, ht, ?_, ?_, ?_⟩
+  · rw [e1, List.drop_left' rfl]; rfl
+  · rw [ht]; exact hgl
+  · have : s.drop (g1.length + 1) = ver ++ rgTail g4 := by
+      rw [e2]; exact List.drop_left' (by simp)
+    rw [this]
+    exact (rgRest_iff _ _ _).mpr ⟨hv, hns, hnl, rfl⟩
+
+/-- correctness of the hand-written matcher against the declarative reading -/
+theorem rgMatchFinal_spec (s g1 ver g4 : Str) :
+    matchFinal s = some (g1, ver, g4) ↔
+      rgFinalShape s g1 ver g4 ∧
+        ∀ g1' ver' g4', rgFinalShape s g1' ver' g4' → g1'.length ≤ g1.length := by
+  unfold matchFinal
+  constructor
+  · intro h
+    obtain ⟨i, h0, hle, e, hc, hmax⟩ := rgAt_sound s _ _ _ _ h
+    obtain ⟨hs, hlen⟩ := rgCand_shape s i ver g4 h0 hc
+    subst e
+    refine ⟨hs, ?_⟩
+    intro g1' ver' g4' hs'
+    obtain ⟨_, hle', _, hc'⟩ := rgShape_cand s g1' ver' g4' hs'
+    rw [hlen]
+    apply Nat.le_of_not_lt
+    intro hlt
+    exact hmax _ hlt hle' _ _ hc'
+  · rintro ⟨hs, hmax⟩
+    obtain ⟨h0, hle, ht, hc⟩ := rgShape_cand s g1 ver g4 hs
+    have := rgAt_complete s s.length g1.length ver g4 h0 hle hc (by
+      intro j hij _ v' g' hc'
+      obtain ⟨hs', hlen⟩ := rgCand_shape s j v' g' (by omega) hc'
+      have := hmax _ _ _ hs'
+      omega)
+    rw [this, ht]
+
+theorem rgAt_none (s : Str) : ∀ n, matchFinalAt s n = none →
+    ∀ j, 0 < j → j ≤ n → ∀ v g, ¬ rgCand s j v g := by
+  intro n
+  induction n with
+  | zero => intro _ j h0 hle; omega
+  | succ n ih =>
+    intro h j h0 hle v g hc
+    rw [rgAt_succ] at h
+    by_cases hjn : j = n + 1
+    · subst hjn
+      have : (s.drop (n + 1)).head? = some '@' ∧ noNewline (s.take (n + 1)) = true := ⟨hc.1, hc.2.1⟩
+      simp only [this, and_self, if_true] at h
+      have h3 := hc.2.2
+      rw [show n + 1 + 1 = n + 2 from rfl] at h3
+      rw [h3] at h
+      cases h
+    · have hn : matchFinalAt s n = none := by
+        split at h
+        · split at h
+          · cases h
+          · exact h
+        · exact h
+      exact ih hn j h0 (by omega) v g hc
+
+/-- no match: no reading at all -/
+theorem rgMatchFinal_none (s : Str) (h : matchFinal s = none) (g1 ver g4 : Str) :
+    ¬ rgFinalShape s g1 ver g4 := by
+  intro hs
+  obtain ⟨h0, hle, _, hc⟩ := rgShape_cand s g1 ver g4 hs
+  exact rgAt_none s _ h _ h0 hle _ _ hc
+
+/-! ## printed final addresses are matched with the intended groups -/
+
+theorem rgSplitLater {α : Type} : ∀ (a a' b b' : List α) (x x' : α),
+    a ++ x :: b = a' ++ x' :: b' → a.length < a'.length → ∃ m, b = m ++ x' :: b' := by
+  intro a
+  induction a with
+  | nil =>
+    intro a' b b' x x' e hl
+    cases a' with
+    | nil => simp at hl
+    | cons y t =>
+      simp only [List.nil_append, List.cons_append, List.cons.injEq] at e
+      exact ⟨t, e.2⟩
+  | cons h t ih =>
+    intro a' b b' x x' e hl
+    cases a' with
+    | nil => simp at hl
+    | cons y t' =>
+      simp only [List.cons_append, List.cons.injEq] at e
+      exact ih t' b b' x x' e.2 (by simpa using hl)
+
+theorem rgPrintFinal_eq (pkg ver sub : Str) :
+    printRegistryFinal pkg ver sub = pkg ++ '@' :: ver ++ rgTail sub := by
+  unfold printRegistryFinal rgTail
+  split <;> simp
+
+theorem rgTail_nil : rgTail [] = [] := rfl
+theorem rgTail_ne (g : Str) (h : g ≠ []) : rgTail g = '/' :: '/' :: g := by simp [rgTail, h]
+
+theorem rgTail_not_at (g rest : Str) : rgTail g ≠ '@' :: rest := by
+  unfold rgTail
+  split <;> simp
+
+/-- a printed final address is matched with the intended groups; the conditions on `@` are the
+exact ones: in the version only as its last character, in the sub-path only where the rest of
+the sub-path is empty or contains a `/` -/
+theorem rgMatchPrint (pkg ver sub : Str) (hp : pkg ≠ []) (hpn : noNewline pkg = true)
+    (hv : ver ≠ []) (hvs : '/' ∉ ver) (hsn : noNewline sub = true)
+    (hss : indexOf ['/', '/'] sub = none)
+    (hva : ∀ a b, ver = a ++ '@' :: b → b = [])
+    (hsa : ∀ a b, sub = a ++ '@' :: b → b = [] ∨ '/' ∈ b) :
+    matchFinal (printRegistryFinal pkg ver sub) = some (pkg, ver, sub) := by
+  rw [rgPrintFinal_eq]
+  apply (rgMatchFinal_spec _ _ _ _).mpr
+  refine ⟨⟨rfl, hp, hpn, hv, hvs, hsn⟩, ?_⟩
+  intro g1' ver' g4' ⟨e, _, _, hv', hvs', _⟩
+  apply Nat.le_of_not_lt
+  intro hlt
+  have e1 : pkg ++ '@' :: (ver ++ rgTail sub) = g1' ++ '@' :: (ver' ++ rgTail g4') := by
+    simpa using e
+  obtain ⟨m, hm⟩ := rgSplitLater _ _ _ _ _ _ e1 hlt
+  rcases List.append_eq_append_iff.mp hm with ⟨a'', _, h2⟩ | ⟨c', h1, h2⟩
+  · -- the `@` lies in the sub-path
+    by_cases hs : sub = []
+    · subst hs; rw [rgTail_nil] at h2; simp at h2
+    · rw [rgTail_ne sub hs] at h2
+      match a'', h2 with
+      | [], h2 => simp at h2
+      | [x], h2 => simp at h2
+      | x :: y :: z, h2 =>
+        simp only [List.cons_append, List.cons.injEq] at h2
+        rcases hsa z _ h2.2.2 with h | h
+        · simp [hv'] at h
+        · rcases List.mem_append.mp h with h | h
+          · exact hvs' h
+          · by_cases hg : g4' = []
+            · subst hg; rw [rgTail_nil] at h; cases h
+            · rw [rgTail_ne g4' hg] at h2
+              apply (rgIndexOf_none_iff _ _).mp hss
+              exact ⟨z ++ '@' :: ver', g4', by rw [h2.2.2]; simp⟩
+  · -- the `@` lies in the version
+    match c', h1, h2 with
+    | [], _, h2 => exact rgTail_not_at _ _ h2.symm
+    | c :: c'', h1, h2 =>
+      simp only [List.cons_append, List.cons.injEq] at h2
+      obtain ⟨hc, h2⟩ := h2
+      subst hc
+      have := hva m c'' h1
+      subst this
+      simp only [List.nil_append] at h2
+      by_cases hs : sub = []
+      · subst hs
+        rw [rgTail_nil] at h2
+        exact hv' (List.append_eq_nil_iff.mp h2).1
+      · rw [rgTail_ne sub hs] at h2
+        cases ver' with
+        | nil => exact hv' rfl
+        | cons v0 vt =>
+          simp only [List.cons_append, List.cons.injEq] at h2
+          exact hvs' (by rw [h2.1]; simp)
+
+/-- simple sufficient condition for the two `@`-conditions -/
+theorem rgNoAt_cond (x : Str) (h : '@' ∉ x) (a b : Str) (e : x = a ++ '@' :: b) : False :=
+  h (by rw [e]; simp)
+
+/-! ## edge white space and the local-looking test -/
+
+theorem rgTrimLeft_len (s : Str) : (trimLeft s).length ≤ s.length := by
+  induction s with
+  | nil => simp [trimLeft]
+  | cons x xs ih =>
+    unfold trimLeft
+    split
+    · simp only [List.length_cons]; omega
+    · exact Nat.le_refl _
+
+theorem rgTrimLeft_of_noLead (s : Str) (h : rgNoLeadSp s) : trimLeft s = s := by
+  cases s with
+  | nil => rfl
+  | cons x xs =>
+    have := h x rfl
+    simp [trimLeft, this]
+
+theorem rgNoLead_of_len (s : Str) (h : s.length ≤ (trimLeft s).length) : rgNoLeadSp s := by
+  intro c hc
+  cases s with
+  | nil => cases hc
+  | cons x xs =>
+    simp only [List.head?_cons, Option.some.injEq] at hc
+    subst hc
+    cases hx : isSpace x with
+    | false => rfl
+    | true =>
+      exfalso
+      have e : trimLeft (x :: xs) = trimLeft xs := by simp [trimLeft, hx]
+      rw [e] at h
+      have := rgTrimLeft_len xs
+      simp only [List.length_cons] at h
+      omega
+
+theorem rgTrim_iff (s : Str) : trimSpace s = s ↔ rgNoLeadSp s ∧ rgNoTrailSp s := by
+  unfold trimSpace
+  constructor
+  · intro h
+    have hl := congrArg List.length h
+    simp only [List.length_reverse] at hl
+    have h1 := rgTrimLeft_len (trimLeft s).reverse
+    have h2 := rgTrimLeft_len s
+    simp only [List.length_reverse] at h1
+    have hlead := rgNoLead_of_len s (by omega)
+    refine ⟨hlead, ?_⟩
+    rw [rgTrimLeft_of_noLead s hlead] at h
+    have h3 : rgNoLeadSp s.reverse := rgNoLead_of_len _ (by
+      have := congrArg List.length h
+      simp only [List.length_reverse] at this
+      simp only [List.length_reverse]; omega)
+    intro c hc
+    exact h3 c (by rw [List.head?_reverse]; exact hc)
+  · rintro ⟨h1, h2⟩
+    rw [rgTrimLeft_of_noLead s h1]
+    have h3 : rgNoLeadSp s.reverse := by
+      intro c hc
+      rw [List.head?_reverse] at hc
+      exact h2 c hc
+    rw [rgTrimLeft_of_noLead _ h3, List.reverse_reverse]
+
+/-- a package followed by anything without white space at its end has no edge white space -/
+theorem rgTrim_append (p x : Str) (hp : p ≠ []) (ht : trimSpace p = p) (hx : rgNoTrailSp x) :
+    trimSpace (p ++ x) = p ++ x := by
+  obtain ⟨h1, h2⟩ := (rgTrim_iff p).mp ht
+  apply (rgTrim_iff _).mpr
+  constructor
+  · intro c hc
+    cases p with
+    | nil => exact absurd rfl hp
+    | cons y ys => exact h1 c (by simpa using hc)
+  · intro c hc
+    rw [List.getLast?_append] at hc
+    cases hx' : x.getLast? with
+    | none => rw [hx'] at hc; exact h2 c (by simpa using hc)
+    | some d => rw [hx'] at hc; simp only [Option.some_or, Option.some.injEq] at hc; subst hc; exact hx d hx'
+
+theorem rgNotLocal_append (p x : Str) (hp : p ≠ []) (hl : looksLikeLocal p = false)
+    (hd : p ≠ dot) (hdd : p ≠ dotdot) :
+    looksLikeLocal (p ++ x) = false ∧ p ++ x ≠ dot ∧ p ++ x ≠ dotdot := by
+  unfold looksLikeLocal hasPrefix dot dotdot at *
+  match p, hp, hl, hd, hdd with
+  | [c], _, hl, hd, hdd =>
+    have h1 : c ≠ '.' := fun e => hd (by rw [e])
+    have h2 : ¬ '.' = c := fun e => h1 e.symm
+    cases x <;> simp [List.isPrefixOf, h1, h2]
+  | [c, d], _, hl, hd, hdd =>
+    by_cases hc : c = '.'
+    · subst hc
+      have h1 : d ≠ '.' := fun e => hdd (by rw [e])
+      have h2 : ¬ '.' = d := fun e => h1 e.symm
+      have h3 : d ≠ '/' := by
+        intro e; subst e; simp [List.isPrefixOf] at hl
+      have h4 : ¬ '/' = d := fun e => h3 e.symm
+      cases x <;> simp [List.isPrefixOf, h1, h2, h4]
+    · have h2 : ¬ '.' = c := fun e => hc e.symm
+      cases x <;> simp [List.isPrefixOf, hc, h2]
+  | c :: d :: e :: r, _, hl, hd, hdd =>
+    simp [List.isPrefixOf] at hl ⊢
+    exact hl
+
+/-! ## printing, dispatch and the final address -/
+
+theorem rgPrint_eq (pkg sub : Str) : printRegistry pkg sub = pkg ++ rgTail sub := by
+  unfold printRegistry rgTail
+  split <;> simp
+
+theorem rgNoTrail_tail (sub : Str) (h : rgNoTrailSp sub) : rgNoTrailSp (rgTail sub) := by
+  by_cases hs : sub = []
+  · subst hs; intro c hc; cases hc
+  · rw [rgTail_ne sub hs]
+    intro c hc
+    apply h c
+    rw [← hc]
+    cases sub with
+    | nil => exact absurd rfl hs
+    | cons x t => simp [List.getLast?_cons_cons]
+
+theorem rgNoTrail_final (ver sub : Str) (hv : ver ≠ []) (h1 : rgNoTrailSp ver) (h2 : rgNoTrailSp sub) :
+    rgNoTrailSp ('@' :: ver ++ rgTail sub) := by
+  intro c hc
+  rw [List.getLast?_append] at hc
+  cases hx : (rgTail sub).getLast? with
+  | some d =>
+    rw [hx] at hc
+    simp only [Option.some_or, Option.some.injEq] at hc
+    subst hc
+    exact rgNoTrail_tail sub h2 d hx
+  | none =>
+    rw [hx] at hc
+    simp only [Option.none_or] at hc
+    apply h1 c
+    rw [← hc]
+    cases ver with
+    | nil => exact absurd rfl hv
+    | cons x t => simp [List.getLast?_cons_cons]
+
+/-- the dispatch of `ParseSource` / `ParseFinalSource` for a string that starts with a printed
+package and has no white space at its end: never rejected, never local -/
+theorem rgDispatch_pre {IsPkg : Str → Prop} (D : RegLawsDispatch IsPkg) (pkg x : Str)
+    (hp : IsPkg pkg) (hx : rgNoTrailSp x) :
+    trimSpace (pkg ++ x) = pkg ++ x ∧ pkg ++ x ≠ [] ∧
+      (looksLikeLocal (pkg ++ x) || pkg ++ x = dot || pkg ++ x = dotdot) = false := by
+  have hne := D.nonempty pkg hp
+  obtain ⟨h1, h2, h3⟩ := rgNotLocal_append pkg x hne (D.not_local pkg hp) (D.not_dot pkg hp)
+    (D.not_dotdot pkg hp)
+  refine ⟨rgTrim_append pkg x hne (D.no_edge_space pkg hp) hx, ?_, ?_⟩
+  · intro e; exact hne (List.append_eq_nil_iff.mp e).1
+  · simp [h1, h2, h3]
+
+theorem rgFinalAddr_print (pkg ver sub : Str) (h : matchFinal (printRegistryFinal pkg ver sub) = some (pkg, ver, sub)) :
+    finalAddrOf (printRegistryFinal pkg ver sub) = (pkg ++ '/' :: '/' :: sub, ver) := by
+  unfold finalAddrOf
+  rw [h]
+
+theorem rgNoNewline_iff (s : Str) : noNewline s = true ↔ '\n' ∉ s := by
+  unfold noNewline
+  simp
+
+theorem rgFinalAddr_nl (s : Str) : '\n' ∉ (finalAddrOf s).1 := by
+  unfold finalAddrOf
+  cases h : matchFinal s with
+  | none => simp
+  | some t =>
+    obtain ⟨g1, ver, g4⟩ := t
+    obtain ⟨⟨_, _, h1, _, _, h4⟩, _⟩ := (rgMatchFinal_spec s g1 ver g4).mp h
+    rw [rgNoNewline_iff] at h1 h4
+    simp only [List.mem_append, List.mem_cons, not_or]
+    exact ⟨h1, by decide, by decide, h4⟩
+
+theorem rgParseFinal_ok {o : RegOracle} {s pkg ver sub : Str}
+    (h : parseFinalRegistrySource o s = .ok (pkg, ver, sub)) :
+    o.verParse (finalAddrOf s).2 = some ver ∧ parseRegistrySource o (finalAddrOf s).1 = .ok (pkg, sub) := by
+  unfold parseFinalRegistrySource at h
+  simp only at h
+  split at h
+  · cases h
+  · rename_i v hv
+    split at h
+    · rename_i p sb hr
+      cases h
+      exact ⟨hv, hr⟩
+    · cases h
+    · cases h
 
 end Slug
